@@ -195,6 +195,13 @@ def top_items(toks, lo, hi):
         kw = None
         while k < hi:
             tk = toks[k]
+            if tk.kind == 'ident' and tk.text == 'const':
+                # `const fn` / `const unsafe fn`: `const` is a modifier here, not a const item
+                q = k + 1
+                while q < hi and toks[q].kind in ('ws', 'comment'):
+                    q += 1
+                if q < hi and toks[q].kind == 'ident' and toks[q].text in ('fn', 'unsafe', 'async', 'extern'):
+                    k += 1; continue
             if tk.kind == 'ident' and tk.text in ITEM_KW:
                 kw = tk.text; break
             if tk.kind == 'ident' and tk.text in ('pub', 'async', 'unsafe', 'extern', 'default'):
